@@ -33,6 +33,7 @@ type FuncContract struct {
 	Inline       bool
 	NoPanic      bool
 	NoPanicProps []string
+	NoPanicKinds map[string][]string // `nopanic[Cxx] typeassert nil ...`: only these kinds of implicit obligation are claimed (under Cxx)
 	Loops        map[int][]*Clause
 	Acquires     []*Clause
 	Releases     []*Clause
@@ -44,6 +45,7 @@ type FuncContract struct {
 	Trusted      bool // contract assumed at call sites, body not verified (listed in evidence)
 	LockFree     bool
 	Recovers     bool
+	Implied      bool // synthesized from the `recoverguard` of the function that defers this one
 	RecoverGuard bool
 	RecoverGuardProps []string
 	GhostVars    []*GhostVar
@@ -344,11 +346,26 @@ func ParseContracts(dir, pkgPath string) (*PkgContracts, error) {
 			}
 			cur.StableBetweenSections = true
 		case "nopanic":
-			cur.NoPanic = true
-			cur.NoPanicProps = parseProps(props)
-			if len(cur.NoPanicProps) == 0 {
-				cur.NoPanicProps = cur.Props
+			pp := parseProps(props)
+			if len(pp) == 0 {
+				pp = cur.Props
 			}
+			if kinds := strings.Fields(rest); len(kinds) > 0 {
+				if cur.NoPanicKinds == nil {
+					cur.NoPanicKinds = map[string][]string{}
+				}
+				for _, k := range kinds {
+					switch k {
+					case "bounds", "nil", "nilmap", "divzero", "typeassert", "makeslice", "panic":
+					default:
+						return nil, fmt.Errorf("%s:%d: nopanic: unknown obligation kind %q", file, l.no, k)
+					}
+					cur.NoPanicKinds[k] = append(cur.NoPanicKinds[k], pp...)
+				}
+				break
+			}
+			cur.NoPanic = true
+			cur.NoPanicProps = pp
 		case "loop":
 			// loop N invariant <expr>
 			f := strings.Fields(rest)
